@@ -462,6 +462,11 @@ fn check_main(args: &[String]) {
     let _ = std::fs::remove_dir_all("/verif/replays/tmp");
 
     // evidence
+    // C08: an evaluation is a restart from a crash point, not a phase-1 execution
+    let (evaluations_reported, distinct_reported) = match (stats.get("c08.restarts"), stats.get("c08.distinct_crash_states")) {
+        (Some(r), Some(d)) if prop == "C08" => (*r as u64, *d as usize),
+        _ => (evaluations, nontrivial.len()),
+    };
     let faults: BTreeMap<String, u64> = counters.iter().filter(|(k, _)| k.starts_with("fault.")).map(|(k, v)| (k.clone(), *v)).collect();
     let probes: BTreeMap<String, i64> = stats.clone();
     let ev = json!({
@@ -470,8 +475,9 @@ fn check_main(args: &[String]) {
         "seed": base_seed,
         "level": spec.level,
         "coverage": {
-            "evaluations": evaluations,
-            "distinct_nontrivial": nontrivial.len(),
+            "evaluations": evaluations_reported,
+            "distinct_nontrivial": distinct_reported,
+            "executions": evaluations,
             "rule": spec.rule,
             "samples": samples,
             "runs_per_scenario": per_scenario,
